@@ -57,7 +57,8 @@ const EngineDef* find_engine(const std::string& name);
     ENGINE_DECL(objects) \
     ENGINE_DECL(tools) \
     ENGINE_DECL(damage) \
-    ENGINE_DECL(threads)
+    ENGINE_DECL(threads) \
+    ENGINE_DECL(flushenum)
 #define ENGINE_DECL(n) void engine_##n(RunCtx&);
 ENGINE_LIST
 #undef ENGINE_DECL
